@@ -3,9 +3,11 @@ package main
 import (
 	"context"
 	"fmt"
+	"io/ioutil"
 	"net"
 	"net/http"
 	"net/http/httptest"
+	"os"
 	"strings"
 	"time"
 
@@ -124,4 +126,63 @@ func c19WS(ctx *Ctx, i int) {
 		}
 	}
 	ctx.Emit(Case{I: i, Kind: "websocket-source-address", Desc: map[string]interface{}{"registrations": n, "stored": seen}, Monitor: mon})
+}
+
+// c19NoAddress: connections that have no network source address at all (an in-process pipe, a
+// unix-domain socket), served with the plain stream codec: a host registering without an
+// override has no determinable address, so the registration must be refused, not stored under
+// whatever the transport calls itself.
+func c19NoAddress(ctx *Ctx, i int) {
+	var mon []string
+	w := newWorld(worldCfg{Drv: drvMem, Price: "1000", IntervalNs: 60e9, Settle: true})
+	defer w.Close()
+	nodeID := nodeIDOf("h1")
+	var tried []string
+	try := func(what string, poolConn, hostConn net.Conn) {
+		poolSide := &jsonrpc2.Remote{Codec: jsonrpc2.IOCodec(poolConn), Client: &jsonrpc2.Client{}, Server: w.server}
+		cli := &jsonrpc2.Remote{Codec: jsonrpc2.IOCodec(hostConn), Client: &jsonrpc2.Client{}, Server: &jsonrpc2.Server{}}
+		go func() { poolSide.Serve(); w.pool.CloseRemote(poolSide) }()
+		go cli.Serve()
+		for _, ov := range []string{"", "enode://" + nodeID + "@[::]:30303", "enode://" + nodeID + "@0.0.0.0:30304", "enode://" + nodeID + "@:30305"} {
+			req := pool.ConnectRequest{VipnodeVersion: "verif", NodeInfo: userAgentFor("geth", true), NodeURI: ov}
+			nonce := w.nextNonce()
+			sig := w.sign(keyFor("h1"), "vipnode_connect", nodeID, nonce, req)
+			var resp pool.ConnectResponse
+			cctx, cancel := context.WithTimeout(context.Background(), 10*time.Second)
+			err := cli.Call(cctx, &resp, "vipnode_connect", sig, nodeID, nonce, req)
+			cancel()
+			tried = append(tried, fmt.Sprintf("%s, override %q: %v", what, ov, err))
+			if err == nil {
+				stored := "?"
+				if nd, gerr := w.st.GetNode(store.NodeID(nodeID)); gerr == nil {
+					stored = nd.URI
+				}
+				mon = append(mon, fmt.Sprintf("c19-no-source-address-stored: a host registered over %s (no network address to connect back to) with override %q was accepted and is advertised as %q; an undeterminable address must be refused", what, ov, stored))
+			}
+		}
+		poolConn.Close()
+		hostConn.Close()
+	}
+	p1, p2 := net.Pipe()
+	try("an in-process pipe", p1, p2)
+	dir, _ := ioutil.TempDir("", "vharness-unix")
+	defer os.RemoveAll(dir)
+	if ln, err := net.Listen("unix", dir+"/s"); err == nil {
+		accepted := make(chan net.Conn, 1)
+		go func() {
+			c, err := ln.Accept()
+			if err == nil {
+				accepted <- c
+			}
+		}()
+		if hc, err := net.Dial("unix", dir+"/s"); err == nil {
+			select {
+			case pc := <-accepted:
+				try("a unix-domain socket", pc, hc)
+			case <-time.After(2 * time.Second):
+			}
+		}
+		ln.Close()
+	}
+	ctx.Emit(Case{I: i, Kind: "no-source-address", Desc: map[string]interface{}{"registrations": tried}, Monitor: mon})
 }
